@@ -157,6 +157,76 @@ func main() {
 		}})
 	}
 
+	// cold start: keys as they come off the wire (key_ops is a []any, nothing has touched the map yet), fresh per
+	// round, hit by all goroutines at once through the factories before any sequential call
+	coldBad := 0
+	{
+		kh := must(hmac.GenerateKey(iana.AlgorithmHMAC_256_256))
+		kh.SetOps(iana.KeyOperationMacCreate, iana.KeyOperationMacVerify)
+		kg := must(aesgcm.GenerateKey(iana.AlgorithmA128GCM))
+		kg.SetOps(iana.KeyOperationEncrypt, iana.KeyOperationDecrypt)
+		ks := must(ed25519.GenerateKey())
+		ks.SetOps(iana.KeyOperationSign, iana.KeyOperationVerify)
+		kc := must(ecdsa.GenerateKey(iana.AlgorithmES256))
+		kc.SetOps(iana.KeyOperationSign, iana.KeyOperationVerify)
+		wire := [][]byte{must(key.MarshalCBOR(kh)), must(key.MarshalCBOR(kg)), must(key.MarshalCBOR(ks)), must(key.MarshalCBOR(kc))}
+		decode := func() []key.Key {
+			out := make([]key.Key, len(wire))
+			for i, w := range wire {
+				if err := key.UnmarshalCBOR(w, &out[i]); err != nil {
+					panic(err)
+				}
+			}
+			return out
+		}
+		use := func(ks []key.Key, i int) []byte {
+			m := must(ks[0].MACer())
+			t := must(m.MACCreate(in(i)))
+			e := must(ks[1].Encryptor())
+			ct := must(e.Encrypt(make([]byte, 12), in(i), nil))
+			s := must(ks[2].Signer())
+			v := must(ks[2].Verifier())
+			sig := must(s.Sign(in(i)))
+			if v.Verify(in(i), sig) != nil {
+				return []byte("verify-failed")
+			}
+			s2 := must(ks[3].Signer())
+			v2 := must(ks[3].Verifier())
+			if v2.Verify(in(i), must(s2.Sign(in(i)))) != nil {
+				return []byte("verify-failed")
+			}
+			return append(append(t, ct...), sig...)
+		}
+		rounds := *N / 2
+		if rounds < 20 {
+			rounds = 20
+		}
+		for rd := 0; rd < rounds; rd++ {
+			shared := decode()
+			ref := use(decode(), rd)
+			var wg sync.WaitGroup
+			var mu sync.Mutex
+			start := make(chan struct{})
+			for g := 0; g < *G; g++ {
+				wg.Add(1)
+				go func() {
+					defer wg.Done()
+					<-start
+					if !bytes.Equal(use(shared, rd), ref) {
+						mu.Lock()
+						coldBad++
+						mu.Unlock()
+					}
+				}()
+			}
+			close(start)
+			wg.Wait()
+		}
+		if coldBad > 0 {
+			fmt.Printf("MISMATCH task=cold-factories count=%d\n", coldBad)
+		}
+	}
+
 	// sequential reference
 	want := make([][][]byte, len(tasks))
 	for t := range tasks {
@@ -191,7 +261,7 @@ func main() {
 	}
 	wg.Wait()
 	fmt.Printf("tasks=%d goroutines=%d ops_per_goroutine=%d total_ops=%d mismatches=%d\n", len(tasks), *G, *N*len(tasks), *G**N*len(tasks), bad)
-	if bad > 0 {
+	if bad+coldBad > 0 {
 		os.Exit(1)
 	}
 }
